@@ -156,6 +156,8 @@ def check(plan, ctx):
         node = pool[s["i"] % len(pool)]
         other = pool[s["j"] % len(pool)]
         op, a = s["op"], s["a"]
+        if op == "forget" and a % 2 and pool[-1].parent in pool:
+            node = pool[-1].parent                 # the intermediate list of the most recent chain
         if op == "forget":
             # the program drops its last reference to an intermediate list (e.g. a method chain, or a variable
             # that is re-assigned); the lists derived from it and the lists it was derived from live on
